@@ -48,7 +48,7 @@ def gen(tier, rnd):
     # responses: the generator of C05, read by the real client (fixed and streamed, within the cap)
     for l in c05.gen(tier, rnd):
         w = l.split()
-        if int(w[1]) < (1 << 20): continue
+        if int(w[1]) < (1 << 20) or w[2] == 'file': continue
         L.append('rtresp ' + ' '.join(w[1:9]) + ' 0')
     return L
 
